@@ -122,6 +122,18 @@ def run(chk):
         open(p, "wb").write(data)
         A = {(n, 0): v for n, v in doc.objects.items()}
         inputs.append((name, p, "generated", A, dict(doc.trailer)))
+    # encrypted inputs with known plaintext: generated documents encrypted by qpdf itself (that encryption is C05's business),
+    # then decrypted / kept / re-laid-out by the run under test
+    encsets = [["--encrypt", "--user-password=u", "--owner-password=o", "--bits=256", "--"],
+               ["--allow-weak-crypto", "--encrypt", "--user-password=u", "--owner-password=o", "--bits=128", "--use-aes=y", "--"],
+               ["--allow-weak-crypto", "--encrypt", "--user-password=u", "--owner-password=o", "--bits=128", "--use-aes=n", "--", "--object-streams=generate"],
+               ["--allow-weak-crypto", "--encrypt", "--user-password=u", "--owner-password=o", "--bits=40", "--"]]
+    for ei, (name, p0, kind0, A0, Atr0) in enumerate([i for i in inputs if i[2] == "generated"][: (3 if quick else 24)]):
+        es = encsets[ei % len(encsets)]
+        pe = os.path.join(wd, "enc%d.pdf" % ei)
+        rc, se = filecheck.run_write(p0, es, pe)
+        if rc == 0:
+            inputs.append(("enc%d" % ei, pe, "generated-encrypted", A0, Atr0))
     # more than 100 intermediate /Pages nodes that each carry direct inheritable attributes: linearizing makes every one of
     # them an indirect object while pushing it down, i.e. more new objects than the writer's tables were sized for
     def many_nodes(K):
@@ -177,6 +189,9 @@ def run(chk):
     jobs = []
     for inp in inputs:
         use = cfgs if (inp[2] == "generated" or not quick) else rng.sample(cfgs, 5 if inp[2] == "corpus" else 10)
+        if inp[2] == "generated-encrypted":
+            use = [["--password=u", "--decrypt"], ["--password=o", "--decrypt", "--object-streams=generate"], ["--password=u", "--decrypt", "--linearize"],
+                   ["--password=u", "--decrypt", "--qdf"], ["--password=u"], ["--password=u", "--linearize", "--object-streams=generate"]]
         if inp[2] == "generated-many-nodes":
             use = [["--linearize", "--object-streams=generate"], ["--linearize"], ["--object-streams=generate"],
                    ["--linearize", "--object-streams=generate", "--compress-streams=n"]]
@@ -237,7 +252,10 @@ def run(chk):
         if len(a2b) >= 5:
             nontriv.add((name, filecheck.config_name(cfg)))
         # renumbering tie: plain modes only (no object streams, not linearized, not qdf: numbers are first-encounter order)
-        if "--object-streams=disable" in cfg and "--linearize" not in cfg and "--qdf" not in cfg and kind == "generated":
+        # (documents with developer extensions are outside the queue/writer models: the writer rewrites /Extensions /ADBE and its
+        #  directness; they are judged by the isomorphism oracle only)
+        if "--object-streams=disable" in cfg and "--linearize" not in cfg and "--qdf" not in cfg and kind == "generated" \
+                and b"Extensions" not in (A.get((1, 0)) or {}):
             line, ids = queue_case(A, Atr, B, a2b)
             qlines.append(line)
             qmeta.append((case, ids, a2b))
@@ -267,6 +285,8 @@ def run(chk):
     # ---- byte-exact correspondence of the extracted plain writer model with the real qpdf
     bx = []
     for name, data, doc in filecheck.gen_docs(rng, 24 if quick else 300):
+        if b"Extensions" in doc.objects[1]:
+            continue                 # outside the writer model's domain (see above)
         p = os.path.join(wd, "bx_" + name + ".pdf")
         open(p, "wb").write(data)
         wmodel.describe(doc, p + ".doc", b"0123456789abcdef" if b"/ID" in data else None)
